@@ -2,7 +2,7 @@
 (* Generator for C17: table variants (cross product) and expression trees   *)
 (* over fields of up to three tables with overlapping column names, in      *)
 (* every operand order.                                                     *)
-EXTENDS PT_Eq, Json
+EXTENDS PT_Terms, Json
 Names == {"t", "u"}
 Schemas == {"none", "str", "list", "obj", "nested"}
 Aliases == {"", "x"}
@@ -32,6 +32,8 @@ Init == \/ kind = "variant" /\ item \in Variants
 Next == UNCHANGED <<kind, item>>
 Emit == IF kind = "variant" THEN PrintT("X " \o ToJson(item))
         ELSE PrintT("T " \o ToJson([tree |-> item, fields |-> FieldsOf(item), tables |-> TablesOf(item)]))
+\* C16 on the design: the intended replace_table is complete on every generated tree, for every pair of sources
+ReplaceOK == kind = "tree" => \A old \in Srcs, new \in Srcs \cup {"w", ""} : ReplaceComplete(item, old, new)
 \* sanity of the oracle: collection is insensitive to operand order
 OrderFree == kind = "tree" /\ item.k = "bin" => FieldsOf(item) = FieldsOf([item EXCEPT !.l = item.r, !.r = item.l])
 =============================================================================
